@@ -3,6 +3,7 @@ Request dispatch for `Driver.lean`.
 -/
 import ToastyVerif.Gen.Pyramid
 import ToastyVerif.Gen.Study
+import ToastyVerif.Model.Pyramid
 
 namespace Driver
 
@@ -67,6 +68,89 @@ def handleStudy (op : String) (a : List Int) : String :=
       | some t => let r := t.image_to_tile u v; s!"{r.1} {r.2.1} {r.2.2.1} {r.2.2.2}"
   | _, _ => "bad-op"
 
+/-! ### pyramid model -/
+
+def showP (p : Pos) : String := s!"({p.n},{p.x},{p.y})"
+def showPs (ps : List Pos) : String := " ".intercalate (ps.map showP)
+
+def parsePos (s : String) : Option Pos :=
+  match (s.splitOn ".").mapM String.toNat? with
+  | some [n, x, y] => some ⟨n, x, y⟩
+  | _ => none
+
+/-- accept-set: `*` (everything) or `n.x.y;n.x.y;…` (possibly empty: `-`) -/
+def parseAcc (s : String) : Option (Pos → Bool) :=
+  if s = "*" then some (fun _ => true)
+  else if s = "-" then some (fun _ => false)
+  else match (s.splitOn ";").mapM parsePos with
+    | some ps => some (fun p => ps.contains p)
+    | none => none
+
+/-- `<depth> <apex n.x.y> <kind: g|t> <acc>` -/
+def parsePyr (a : List String) : Option (Nat × Pos × Option (Pos → Bool)) :=
+  match a with
+  | [d, ap, "g"] => do
+      let d ← d.toNat?; let ap ← parsePos ap
+      if ap.n > d then none else some (d, ap, none)
+  | [d, ap, "t", acc] => do
+      let d ← d.toNat?; let ap ← parsePos ap; let acc ← parseAcc acc
+      if ap.n > d then none else some (d, ap, some acc)
+  | _ => none
+
+def showErr : Pyr.RErr → String
+  | .assertLen => "assert-failed:len"
+  | .assertXY => "assert-failed:xy"
+  | .assertParentXY => "assert-failed:parent-xy"
+
+def showYields {α} (sh : α → String) (ys : List (Pos × Bool × (Nat → α))) : String :=
+  " ".intercalate (ys.map fun y => s!"{showP y.1}{if y.2.1 then "L" else "N"}[{sh (y.2.2 0)},{sh (y.2.2 1)},{sh (y.2.2 2)},{sh (y.2.2 3)}]")
+
+def handlePyr (op : String) (a : List String) : String :=
+  match op, a with
+  | "genpos", [d] => match d.toNat? with
+      | some d => showPs (Pyr.genPos d)
+      | none => "bad-op"
+  | "parent", [p] => match parsePos p with
+      | some p => if p.n < 1 then "value-error" else s!"{showP p.parent} {p.x % 2} {p.y % 2} {p.slot}"
+      | none => "bad-op"
+  | "children", [p] => match parsePos p with
+      | some p => showPs p.children
+      | none => "bad-op"
+  | "issub", [d, s] => match parsePos d, parsePos s with
+      | some d, some s => match Pos.isSub d s with
+        | none => "value-error"
+        | some b => toString b
+      | _, _ => "bad-op"
+  | "generator", args => match parsePyr args with
+      | some (d, ap, t) => showPs (Pyr.generator d ap t)
+      | none => "bad-op"
+  | "walk", args => match parsePyr args with
+      | some (d, ap, t) => match Pyr.serialWalk d ap t with
+        | .ok ps => showPs ps
+        | .error e => showErr e
+      | none => "bad-op"
+  | "leaves", args => match parsePyr args with
+      | some (d, ap, t) => match Pyr.serialLeaves d ap t with
+        | .ok ps => showPs ps
+        | .error e => showErr e
+      | none => "bad-op"
+  | "red", fn :: args => match parsePyr args with
+      | some (d, ap, t) =>
+        let g := Pyr.generator d ap t
+        match fn with
+        | "leaf" => match Pyr.runRed d ap 0 Pyr.fLeaf g (Pyr.RState.init 0) with
+          | .ok (ys, s) => s!"{showYields toString ys} => {s.final} {!s.active}"
+          | .error e => showErr e
+        | "live" => match Pyr.runRed d ap 0 Pyr.fLive g (Pyr.RState.init 0) with
+          | .ok (ys, s) => s!"{showYields toString ys} => {s.final} {!s.active}"
+          | .error e => showErr e
+        | "ops" => match Pyr.runRed d ap (false, 0) Pyr.fOps g (Pyr.RState.init (false, 0)) with
+          | .ok (ys, s) => s!"{showYields (fun v => s!"{v.1}/{v.2}") ys} => {s.final.1}/{s.final.2} {!s.active}"
+          | .error e => showErr e
+        | _ => "bad-op"
+      | none => "bad-op"
+  | _, _ => "bad-op"
+
 def handle (toks : List String) : String :=
   match toks with
   | "gen" :: op :: args => match ints args with
@@ -75,6 +159,7 @@ def handle (toks : List String) : String :=
   | "study" :: op :: args => match ints args with
       | some a => handleStudy op a
       | none => "bad-op"
+  | "pyr" :: op :: args => handlePyr op args
   | _ => "bad-op"
 
 end Driver
